@@ -42,7 +42,7 @@ EPS_D = {False: Fraction(1, 10 ** 10), True: Fraction(2, 10 ** 5)}     # x64 / f
 EPS_O = {False: 1e-7, True: 2e-4}                                         # oracle (scipy vs tfp) tolerance
 CORPUS = os.path.join(common.VERIF, "harness", "corpus")
 
-FORCED = ["reject", "reject", "rebuild", "rebuild", "user", "free", "both", "norole", "transient", "transform", "auto", "auto", "npdist", "npdist", "inplace", "inplace",
+FORCED = ["simfail", "simfail", "reject", "reject", "rebuild", "rebuild", "user", "free", "both", "norole", "transient", "transform", "auto", "auto", "npdist", "npdist", "inplace", "inplace",
           "mvnd", "weakdist", "nodist", "matrix", "distreg", "distreg"]
 
 
@@ -82,6 +82,8 @@ def features(prog) -> list[str]:
         fs.append("build_history." + "+".join(prog["builds"]))
     if prog.get("reject"):
         fs.append("has_raising_assignment")
+    if prog.get("builder_add"):
+        fs.append("builder_add." + prog["builder_add"]["order"] + ".other_" + prog["builder_add"]["other"])
     if prog.get("add_mode") == "roots":
         fs.append("inner_vars_reached_as_inputs_only")
     if prog["free"]:
@@ -124,14 +126,16 @@ def run_program(prog: dict, steps: list[dict], pid, want_inputs=True, jit=False)
                 continue          # the positions are applied to the first and to the last model of the history
             prev = o["state"]
             for k, st in enumerate(steps):
-                window = None
+                window, sim = None, None
                 if st["mode"] == "reject":
                     window = kit.reject_window(B, st)
+                if st["mode"] == "simfail":
+                    sim = kit.simulate_then_restore(B)
                 kit.apply_position(B, st["pos"], st["mode"] == "manual", inplace=st["mode"] == "inplace")
                 o = kit.observe(B, iface, prev_state=prev, pos=st["pos"], want_inputs=want_inputs and not prog["f32"],
                                 jit=jit and last and k == len(steps) - 1)
                 cases.append({"pid": pid, "k": k + 1, "build": bi, "how": B.how, "prog": prog, "positions": steps[:k + 1],
-                              "mode": st["mode"], "obs": strip_obs(o), "flip": None, "window": window})
+                              "mode": st["mode"], "obs": strip_obs(o), "flip": None, "window": window, "sim": sim})
                 kdone = k + 1
                 prev = o["state"]
     except Exception as ex:
@@ -186,7 +190,7 @@ def generate(ctx):
             if force == "distreg":
                 prog = kit.gen_distreg(rnd, force)
             else:
-                prog = kit.gen_hier(rnd, rnd.randint(2, 7), None if force == "inplace" else force)
+                prog = kit.gen_hier(rnd, rnd.randint(2, 7), {"inplace": None, "simfail": "weakdist"}.get(force, force))
                 for _ in range(30):
                     if force != "reject" or prog["reject"]:
                         break
@@ -219,6 +223,8 @@ def generate(ctx):
             ctx.hist("point." + c["mode"])
             if c.get("nonfinite"):
                 ctx.hist("skipped.nonfinite_log_density")
+            if c.get("sim"):
+                ctx.hist("simulate." + ("failed" if c["sim"]["raised"] else "succeeded") + "_then_assignments")
             if c.get("window"):
                 ctx.hist("window.first_assignment_" + ("raised" if c["window"]["raised"][0] else "did_not_raise"))
                 ctx.hist("window.nodes_outdated" if c["window"]["any_outdated"] else "window.all_clean")
@@ -502,6 +508,11 @@ def oracle(c):
     w = window_oracle(c)
     if w:
         return w
+    sim = c.get("sim")
+    if sim and sim["auto_update_after"] != sim["auto_update_before"]:
+        return (f"model.auto_update is {sim['auto_update_after']} after a simulate() call that "
+                f"{'raised ' + str(sim['raised']) if sim['raised'] else 'succeeded'}, although the user set it to "
+                f"{sim['auto_update_before']}: later assignments leave the totals at the old values")
     want = {"prob": ("S", ex["prob"]), "lik": ("S", ex["lik"]), "prior": ("S", ex["prior"])}
     for w, u in ex["user"].items():
         want[w] = u
